@@ -416,7 +416,8 @@ func (c *Client) send(dest net.Addr, msg *dhcpv6.Message) (<-chan *dhcpv6.Messag
 
 	ch := make(chan *dhcpv6.Message, c.bufferCap)
 	done := make(chan struct{})
-	c.pending[msg.TransactionID] = &pendingCh{done: done, ch: ch}
+	pc := &pendingCh{done: done, ch: ch}
+	c.pending[msg.TransactionID] = pc
 	vhook("SendRegistered", msg, ch)
 	c.pendingMu.Unlock()
 
@@ -432,7 +433,7 @@ func (c *Client) send(dest net.Addr, msg *dhcpv6.Message) (<-chan *dhcpv6.Messag
 
 		vhook("CancelPreLock", msg, ch)
 		c.pendingMu.Lock()
-		if p, ok := c.pending[msg.TransactionID]; ok {
+		if p, ok := c.pending[msg.TransactionID]; ok && p == pc {
 			vhook("CancelRemoved", msg, p.ch)
 			close(p.ch)
 			delete(c.pending, msg.TransactionID)
